@@ -504,6 +504,23 @@ class Rule:
         return out, n_app
 
 
+class MultiRule:
+    """A family of exact statement rewrites under one rule id (each pair applied in order, each logged)."""
+
+    def __init__(self, rid, doc, pairs):
+        self.id, self.doc = rid, doc
+        self.rules = [Rule(rid, doc, a, b) for (a, b) in pairs]
+        self.pat = ["<family>"]
+        self.rep = ["<family>"]
+
+    def apply(self, ss, log, where, params=None):
+        n = 0
+        for r in self.rules:
+            ss, k = r.apply(ss, log, where, params)
+            n += k
+        return ss, n
+
+
 def _has_range(env):
     return any(t in ("..", "..=") for t in env.get("$$r", []))
 
@@ -650,6 +667,28 @@ RULES = {
                  "{ let mut i__ = 0 ; while i__ < $v . len ( ) { let $i = i__ ; let $e = & $v [ i__ ] ; i__ += 1 ; $$body } }"),
     "R3asa": Rule("R3asa", "*self = n + other; -> *self = Add::add(n, other);", "* self = n + other ;", "* self = Add :: add ( n , other ) ;"),
     "R3ass": Rule("R3ass", "*self = n - other; -> *self = Sub::sub(n, other);", "* self = n - other ;", "* self = Sub :: sub ( n , other ) ;"),
+    "R37": MultiRule("R37", "Toom-3 interpolation statements of mac3: every BigInt operator expression written in trait-method form (Rust's definition of the operators; precedence and evaluation order kept; integer literals keep their i32 fallback type)", [
+        ("let p = & x0 + & x2 ;", "let p = Add :: add ( & x0 , & x2 ) ;"),
+        ("let q = & y0 + & y2 ;", "let q = Add :: add ( & y0 , & y2 ) ;"),
+        ("let p2 = & p - & x1 ;", "let p2 = Sub :: sub ( & p , & x1 ) ;"),
+        ("let q2 = & q - & y1 ;", "let q2 = Sub :: sub ( & q , & y1 ) ;"),
+        ("let r0 = & x0 * & y0 ;", "let r0 = Mul :: mul ( & x0 , & y0 ) ;"),
+        ("let r4 = & x2 * & y2 ;", "let r4 = Mul :: mul ( & x2 , & y2 ) ;"),
+        ("let r1 = ( p + x1 ) * ( q + y1 ) ;", "let r1 = Mul :: mul ( Add :: add ( p , x1 ) , Add :: add ( q , y1 ) ) ;"),
+        ("let r2 = & p2 * & q2 ;", "let r2 = Mul :: mul ( & p2 , & q2 ) ;"),
+        ("let r3 = ( ( p2 + x2 ) * 2 - x0 ) * ( ( q2 + y2 ) * 2 - y0 ) ;",
+         "let r3 = Mul :: mul ( Sub :: sub ( Mul :: mul ( Add :: add ( p2 , x2 ) , 2 ) , x0 ) , Sub :: sub ( Mul :: mul ( Add :: add ( q2 , y2 ) , 2 ) , y0 ) ) ;"),
+        ("let mut comp3 : BigInt = ( r3 - & r1 ) / 3u32 ;", "let mut comp3 : BigInt = Div :: div ( Sub :: sub ( r3 , & r1 ) , 3u32 ) ;"),
+        ("let mut comp1 : BigInt = ( r1 - & r2 ) >> 1 ;", "let mut comp1 : BigInt = Shr :: shr ( Sub :: sub ( r1 , & r2 ) , 1 ) ;"),
+        ("let mut comp2 : BigInt = r2 - & r0 ;", "let mut comp2 : BigInt = Sub :: sub ( r2 , & r0 ) ;"),
+        ("comp3 = ( ( & comp2 - comp3 ) >> 1 ) + ( & r4 << 1 ) ;", "comp3 = Add :: add ( Shr :: shr ( Sub :: sub ( & comp2 , comp3 ) , 1 ) , Shl :: shl ( & r4 , 1 ) ) ;"),
+        ("comp2 += & comp1 - & r4 ;", "AddAssign :: add_assign ( & mut comp2 , Sub :: sub ( & comp1 , & r4 ) ) ;"),
+        ("comp1 -= & comp3 ;", "SubAssign :: sub_assign ( & mut comp1 , & comp3 ) ;"),
+        ("match j0_sign * j1_sign {", "match Mul :: mul ( j0_sign , j1_sign ) {"),
+    ]),
+    "R38": Rule("R38", "for (j, result) in [&r0, &comp1, &comp2, &comp3, &r4].iter().enumerate().rev() { BODY } -> five copies of BODY with (j, result) = (4, &&r4), (3, &&comp3), (2, &&comp2), (1, &&comp1), (0, &&r0) in that order  (std: enumerate().rev() over a 5-element array iterator yields the pairs from the last to the first)",
+                "for ( j , result ) in [ & r0 , & comp1 , & comp2 , & comp3 , & r4 ] . iter ( ) . enumerate ( ) . rev ( ) { $$body }",
+                "{ let j = 4 ; let result = & & r4 ; $$body } { let j = 3 ; let result = & & comp3 ; $$body } { let j = 2 ; let result = & & comp2 ; $$body } { let j = 1 ; let result = & & comp1 ; $$body } { let j = 0 ; let result = & & r0 ; $$body }"),
     "R16v": Rule("R16v", "Ord::cmp(&bit, &trailing_zeros) -> __u64_cmp(bit, trailing_zeros)  (std: total order on u64)",
                  "Ord :: cmp ( & bit , & trailing_zeros )", "__u64_cmp ( bit , trailing_zeros )"),
     "R0p": Rule("R0p", "crate::big_digit::BITS -> big_digit::BITS  (path of the same constant inside the unit's module)",
